@@ -727,12 +727,13 @@ pub fn record_reuse(r: &mut StdRng, tr: &mut Tr, maxt: usize) -> usize {
         let nt = r.random_range(if i == 1 { 0 } else { 1 }..=maxt.min(5));
         let nc = r.random_range(0..=2);
         let nb = if save && r.random_bool(0.5) { r.random_range(1..=2) } else { 0 };
+        let nt = if nb > 0 { nt.max(1) } else { nt }; // an output needs a spider to hang on
         let (c1, c2) = (r.random_bool(0.3), r.random_bool(0.5));
         targets.push(if nb == 0 && c1 { host_split(r, c2) } else { host(r, nt, nc, nb, 0.45, c2) });
     }
     let simp = ["none", "clifford", "full"][r.random_range(0..3)];
     let (via_with, split) = (r.random_bool(0.7), r.random_bool(0.5));
-    // saving is only promised for the sequential, unsplit decomposer (see Trace_Decomp: SaveAnyMode)
+    // saving is only promised for the sequential, unsplit decomposer (see Trace_Decomp: SaveParallel)
     let threads = if r.random_bool(0.3) { [1usize, 2, 4][r.random_range(0..3)] } else { 0 };
     let standard_at = if r.random_bool(0.3) { r.random_range(0..ntargets) } else { usize::MAX };
     let hash = r.random_bool(0.3);
